@@ -372,6 +372,20 @@ def check(run):
         t = RA.read_asdf(two, colname='packedpid', load=['pid', 'aux'], verbose=False)
         run.ev()
         check_table(run, t, 'packedpid', pp, hdr, ['pid', 'aux'], np.float32, dict(file='two-known-columns', colname='packedpid'))
+        # a PID column stored under another name ("probably one of ..."): not detected, but once named explicitly it is read like any PID column,
+        # by default as 'pid'
+        for cn in ('packedpid_A', 'halo_pid'):
+            fno = os.path.join(d, f'named_{cn}.asdf')
+            write_asdf(fno, dict(header=hdr, data={cn: pp, 'unrelated': rv}), None)
+            for load in (None, ['pid', 'aux'], ['pid']):
+                run.ev()
+                run.nt(('explicitly-named-column', cn, repr(load)))
+                try:
+                    t = RA.read_asdf(fno, colname=cn, load=load, verbose=False)
+                except Exception as e:
+                    run.violation('read-asdf-named-column-raises-' + type(e).__name__, dict(colname=cn, load=load, error=f'{type(e).__name__}: {e}'[:200]))
+                    continue
+                check_table(run, t, 'packedpid', pp, hdr, load or ['pid'], np.float32, dict(file='no known raw column', colname=cn, load=load))
     finally:
         shutil.rmtree(d, ignore_errors=True)
 
